@@ -232,8 +232,8 @@ def run(ctx):
                        "prediction_mismatches": pred_mis}
     cov["scenarios_enumerated"] = len(recs)
     cov["exhaustive"] = not ctx.quick
-    if n_ok < len(results) // 3:
-        raise ToolError(f"only {n_ok} of {len(results)} scenarios linked and passed: vacuous")
+    if n_ok + n_bad < len(results) // 3:
+        raise ToolError(f"only {n_ok + n_bad} of {len(results)} scenarios were linked by wild: vacuous")
     cov["samples"] = trim_samples(cov["samples"], 4, 900)
     return {"level": "model_checking", "coverage": cov,
             "assumptions": ["AddrPlaces ground truth = generated pointer fields + decoded GOT slot; programs are libc-free so no other place holds an address",
